@@ -89,6 +89,15 @@ pub fn corpus() -> Vec<Input> {
         Some("!anmmap\n!enum(name=\"Alpha\")\n1 a_one\n2 a_two\n3 a_three\n!enum(name=\"Beta\")\n1 b_one\n5 b_five\n6 b_six\n!ins_signatures\n9001 S(enum=\"Alpha\")\n9002 S(enum=\"Beta\")\n9003 S(enum=\"Alpha\")S(enum=\"Beta\")\n!ins_names\n9001 takeAlpha\n9002 takeBeta\n9003 takeBoth\n!gvar_names\n10000 AA\n10001 BB\n10002 CC\n!gvar_types\n10000 $\n10001 $\n10002 $\n"), true);
     add("ecl07-many-warnings-decompile", "truecl", "th07", vec![], "void sub0() {\n    ins_9001(@blob=\"01000000 02\");\n    ins_9002(@blob=\"01000000 02000000 03\");\n    ins_9003(@blob=\"0100\");\n    ins_9004(@blob=\"05000000\");\n}\nscript timeline0 {}\n".into(),
         Some("!eclmap\n!ins_signatures\n9001 S\n9002 SS\n9003 S\n9004 f\n"), true);
+    // -- several unknown enums in signatures (validated by iterating the signature table); "did you mean" with a tie
+    add("anm12-three-unknown-enums", "truanm", "th12", vec![], format!("{ANM_HEAD}script s0 {{ ins_1(); }}\n"),
+        Some("!anmmap\n!ins_signatures\n9001 S(enum=\"Nope1\")\n9002 S(enum=\"Nope2\")\n9003 S(enum=\"Nope3\")\n9004 S(enum=\"Nope4\")\n"), false);
+    add("anm12-similar-enum-tie", "truanm", "th12", vec![], format!("{ANM_HEAD}script s0 {{ ins_1(); }}\n"),
+        Some("!anmmap\n!enum(name=\"Alphb\")\n1 xb\n!enum(name=\"Alphc\")\n1 xc\n!enum(name=\"Alphd\")\n1 xd\n!enum(name=\"Alphe\")\n1 xe\n!ins_signatures\n9001 S(enum=\"Alpha\")\n"), false);
+    // -- old ECL: one sub called with different argument registers from different subs (the decompiler infers the callee's
+    //    parameter list from the call sites it sees)
+    add("ecl07-conflicting-call-signatures", "truecl", "th07", vec![], "void callee(int a) { $REG[10000] = a; }\nvoid c1() { $REG[10037] = 3; ins_41(callee); }\nvoid c2() { %REG[10041] = 2.5; ins_41(callee); }\nvoid c3() { $REG[10037] = 1; $REG[10038] = 2; ins_41(callee); }\nvoid c4() { $REG[10037] = 1; %REG[10041] = 2.0; %REG[10042] = 3.0; ins_41(callee); }\nvoid c5() { callee2(1, 2.0); callee(7); }\nvoid callee2(int a, float x) { $REG[10000] = a; }\nvoid c6() { %REG[10041] = 1.0; ins_41(callee2); }\nscript timeline0 {}\n".into(), None, true);
+    add("ecl08-conflicting-call-signatures", "truecl", "th08", vec![], "void callee(int a) { $REG[10000] = a; }\nvoid c1() { $REG[10061] = 3; ins_52(callee); }\nvoid c2() { %REG[10065] = 2.5; ins_52(callee); }\nvoid c3() { $REG[10061] = 1; $REG[10062] = 2; ins_52(callee); }\nvoid c4() { $REG[10061] = 1; %REG[10065] = 2.0; %REG[10066] = 3.0; ins_52(callee); }\nvoid c5() { callee2(1, 2.0); callee(7); }\nvoid callee2(int a, float x) { $REG[10000] = a; }\nvoid c6() { %REG[10065] = 1.0; ins_52(callee2); }\nscript timeline0 {}\n".into(), None, true);
     v
 }
 
